@@ -80,6 +80,7 @@ def run(prog, tier, extra=None):
     R2 = res.rule("C01.who-may-insert", "only add_transaction (behind validate) and add_block_transactions_back insert into the pool", floor=3)
     R4 = res.rule("C01.dup-scan", "the in-block double-spend scan checks and records each spent key individually", floor=1)
     R5 = res.rule("C01.scan-exemptions", "only zero-amount and Bound inputs are exempt from the in-block double-spend test", floor=0)
+    R7 = res.rule("C01.utxo-lookup", "validate_against_utxoset skips the per-input ledger lookup only for the Fee transaction", floor=1)
     R6 = res.rule("C01.tx-dup", "Transaction::validate accepts a non-privileged transaction only after a test that can tell a repeated input key", floor=1)
     R3 = res.rule("C01.signature", "Transaction::validate accept paths pass verify_signature(hash_for_signature, signature, from[0].public_key)", floor=1)
 
@@ -390,6 +391,44 @@ def run(prog, tier, extra=None):
                         tv.loc(path[-1]), {"path": describe_path(tv, path)}))
     else:
         res.sample({"rule": R6, "tests": n6, "states": ex6.states, "verdict": "every non-privileged accept path passes a distinct-key test"})
+
+    # R7: "refers to an output ... not spent before": every input of every transaction is looked up in the UTXO set
+    # (Slip::validate) except for the Fee transaction, whose inputs are bookkeeping records compared as a whole with the derived one
+    # (C02.payout-exact). In particular a rebroadcast's inputs are looked up: the commitment hash does not cover block id / ordinal.
+    vu = prog.body(CORE + "consensus::transaction::Transaction::validate_against_utxoset")
+    if vu is None:
+        raise LookupError("Transaction::validate_against_utxoset not found")
+    chu = Chaser(vu)
+    res.instance(R7)
+    fee_only, fee_sites = gate.enum_compare_edges(prog, vu, chu, "transaction::TransactionType", "transaction_type", {"Fee"})
+
+    def is_lookup(e):
+        if e[0] != "call":
+            return False
+        last = e[1].rsplit("::", 1)[-1]
+        if last in ("all",) and has_field(e, "Transaction", "from"):
+            for x in walk(e):
+                if x[0] == "agg" and x[1][0] == "closure":
+                    cb = prog.bodies.get(x[1][1])
+                    if cb is not None and any((call_name(t) or "").endswith("slip::Slip::validate") for _, t in cb.calls()):
+                        return True
+        return False
+    look = gate.bool_switch_edges(vu, chu, is_lookup)
+    ret_lookup = False
+    for d in vu.defs(0):
+        x = chu.rvalue(d[3], 0) if d[0] == "stmt" else chu.call(d[2], d[1], 0)
+        if is_lookup(x):
+            ret_lookup = True       # the lookup's verdict is the function's result
+    blocked7 = {d[1] for d in vu.defs(0) if is_lookup(chu.rvalue(d[3], 0) if d[0] == "stmt" else chu.call(d[2], d[1], 0))}
+    found7 = Explorer(vu).explore(0, deleted_edges=fee_only | look["true"], blocked=blocked7, accept=gate.make_accept(vu, return_true=True))
+    if not look["sites"] and not ret_lookup:
+        res.add(Finding(R7, "C01.utxo-lookup|no-lookup", "validate_against_utxoset no longer checks every input with Slip::validate", vu.loc(0)))
+    elif found7:
+        kind, path = sorted(found7.items())[0]
+        res.add(Finding(R7, "C01.utxo-lookup|bypass", "validate_against_utxoset can return true without looking the inputs up for a transaction type other than Fee: such a "
+                        "transaction can name an input that does not exist (or leave the real one spendable)", vu.loc(path[-1]), {"path": describe_path(vu, path)}))
+    else:
+        res.sample({"rule": R7, "exempt": [v for _, v in fee_sites], "verdict": "every other type reaches the per-input Slip::validate"})
 
     # the ledger C01's verdicts are evaluated against is the one wind/unwind maintain, and the only un-signed spends the
     # validator admits are the rebroadcasts it re-derives: both mechanisms are decided by the C03 / C13 rules, cross-listed here
